@@ -133,10 +133,12 @@ def cpEfun (pol : Policy) (ex : List CStr) (a b : CStr) : List Ev :=
 def endsWith (s suf : CStr) : Bool := s.length ≥ suf.length && s.drop (s.length - suf.length) == suf
 
 /-- the file name `save_object` / `restore_object` build from their argument (`len ≥ 2` assumed) -/
+def saveExt : CStr := [Char.ofNat NV.Gen.C15.saveExtDot, Char.ofNat NV.Gen.C15.saveExtO]   -- SAVE_EXTENSION
+
 def saveName (f : CStr) : CStr :=
   let len := if endsWith f ['.', 'c'] then f.length - 2 else f.length
-  let len := if f.drop (len - 2) == ['.', 'o'] then len - 2 else len
-  f.take len ++ ['.', 'o']
+  let len := if f.drop (len - NV.Gen.C15.saveExtLen) == saveExt then len - NV.Gen.C15.saveExtLen else len
+  f.take len ++ saveExt
 
 def saveEfun (pol : Policy) (ex : List CStr) (a : CStr) : List Ev :=
   let (e, r) := ask pol true (saveName a) "save_object"
@@ -210,7 +212,7 @@ def inheritEvents (base name : CStr) : List Ev :=
   let (l, ok) := loadEvents ex base
   if !ok then l
   else
-    let inh := match stripName name 1024 with           -- strip_name (inherit_file, inhbuf, …) else strcpy
+    let inh := match stripName name NV.Gen.C15.maxObjectNameSize with           -- strip_name (inherit_file, inhbuf, …) else strcpy
       | some s => s
       | none => name
     let (l2, ok2) := loadEvents ex inh
